@@ -42,14 +42,16 @@ func genRHPCase(rng *rand.Rand, idx int) RHPCase {
 }
 
 func phaseRHP(r *mon.Run) {
+	g := &guard{r: r, phase: "rhp"}
 	n := r.Pick(40, 300)
 	for i := 0; i < n; i++ {
 		c := genRHPCase(r.RNG(0xE000+uint64(i)), i)
 		if i == 0 {
 			r.Sample(c)
 		}
-		runRHPCase(r, c)
+		g.run(func() { runRHPCase(r, c) })
 	}
+	g.done()
 }
 
 func keyFrom(seed uint64) types.PrivateKey {
